@@ -357,17 +357,26 @@ def inclusion_module(elems, ops, marker, j, chain=False):
     shown[j] = {'k': 'ref', 'name': 'Inc'}
     text = G.t_constraint({'set': G.chain(elems, ops), 'ext': marker})
     text2 = G.t_constraint({'set': G.chain(shown, ops), 'ext': marker})
-    inc = 'Inc ::= INTEGER (%s)\n'
+    inc = 'Inc ::= INTEGER (%s)\n' % G.t_elem(elems[j])
     if chain:
         e = elems[j]
         lo = e['v'] if e['k'] == 'single' else e.get('lo')
         hi = e['v'] if e['k'] == 'single' else e.get('hi')
         wide = '%s..%s' % ('MIN' if lo is None else str(int(lo['i']) - 7), 'MAX' if hi is None else str(int(hi['i']) + 3))
+        plain = dict(e)
+        plain['x'] = False
+        # a marker on the operand is written on the reference's own constraint -- the last of the chain, which decides (X.680 50.8)
+        mark = ', ...' if e.get('x') else ''
         if chain == 'base-exact':
             # the bound comes from the type the reference leads to, the reference's own constraint is the wider one
-            inc = 'IncBase ::= INTEGER (%s)\nInc ::= IncBase (' + wide + ')\n'
+            inc = 'IncBase ::= INTEGER (%s)\nInc ::= IncBase (%s%s)\n' % (G.t_elem(plain), wide, mark)
+        elif chain == 'three-levels':
+            # two constrained references on the way: the marker of the middle one must not count, that of the last one must
+            wider = '%s..%s' % ('MIN' if lo is None else str(int(lo['i']) - 9), 'MAX' if hi is None else str(int(hi['i']) + 5))
+            inc = ('IncBase ::= INTEGER (%s)\nIncMid ::= IncBase (%s%s)\nInc ::= IncMid (%s%s)\n'
+                   % (wider, wide, '' if e.get('x') else ', ...', G.t_elem(plain), mark))
         else:
-            inc = 'IncBase ::= INTEGER (' + wide + ')\nInc ::= IncBase (%s)\n'
+            inc = 'IncBase ::= INTEGER (%s)\nInc ::= IncBase (%s%s)\n' % (wide, G.t_elem(plain), mark)
     return ('M DEFINITIONS AUTOMATIC TAGS ::= BEGIN\n'
             + inc +
             'Aa ::= INTEGER %s\n'
@@ -376,7 +385,7 @@ def inclusion_module(elems, ops, marker, j, chain=False):
             'IncS ::= IA5String (SIZE %s)\n'
             'Jj ::= SEQUENCE { j IA5String (IncS) }\n'
             'Kk ::= IA5String (IncS)\n'
-            'END\n') % (G.t_elem(elems[j]), text2, text2, text2, text), text2
+            'END\n') % (text2, text2, text2, text), text2
 
 
 def judge_inclusion(ck, cases, results):
@@ -557,10 +566,22 @@ def run(ck):
                for e in elems):
             continue
         j = ck.rng.randrange(len(elems))
-        chain = ck.rng.choice([False, False, 'ref-exact', 'base-exact']) if elems[j]['k'] in ('single', 'range') and not elems[j].get('x') else False
+        chain = ck.rng.choice([False, False, 'ref-exact', 'base-exact', 'three-levels']) if elems[j]['k'] in ('single', 'range') else False
         src, text2 = inclusion_module(elems, ops, marker, j, chain)
         incl.append({'op': 'compile', 'sources': [src], '_m': (elems, ops, marker, j), '_text': text2})
         ck.count('inclusion:through-constrained-reference:%s' % chain if chain else 'inclusion:direct')
+    # a single inclusion (no other operand: the bound and the flag must be exactly the included type's) through every chain shape,
+    # with and without a marker on the deciding constraint
+    for lo_, hi_ in ([(0, 5), (1, 300), (None, 7), (2, None)] if ck.tier == 'quick' else
+                     [(0, 5), (1, 300), (None, 7), (2, None), (0, 0), (5, 70000), (3, 2 ** 32), (None, None)]):
+        for x_ in (False, True):
+            for chain in ('ref-exact', 'base-exact', 'three-levels'):
+                e_ = {'k': 'range', 'lo': None if lo_ is None else G.jint(lo_), 'hi': None if hi_ is None else G.jint(hi_), 'x': x_}
+                if lo_ is None and hi_ is None and chain == 'base-exact':
+                    continue
+                src, text2 = inclusion_module([e_], [], False, 0, chain)
+                incl.append({'op': 'compile', 'sources': [src], '_m': ([e_], [], False, 0), '_text': text2})
+                ck.count('inclusion:single:%s' % chain)
     if incl:
         ck.sample({'asn1': incl[0]['sources'][0]})
     judge_inclusion(ck, incl, run_harness(incl))
